@@ -7,7 +7,10 @@ Coverage (which stream reaches which clause of the property text):
                    variables only in constraints / only in the objective / in neither; BINARY, SPIN, small and wide INTEGER
   all senses, soft/hard, linear/quadratic penalty, constant-only     rand_expr / gen_case (unchanged)
   all samples      forms ("form"): list of dicts (key order = column order) | (ndarray, labels) | (list of lists, labels)
-                   | unlabelled ndarray | unlabelled list of lists (only for 0..n-1 labels) | SampleSet;
+                   | unlabelled ndarray | unlabelled list of lists (only for 0..n-1 labels) | SampleSet
+                   | list of dicts (some given as (row, labels)) EACH WITH ITS OWN key order
+                   (rotations = non-self-inverse permutations included; as_samples re-aligns them to the first; the same
+                   objects as an ITERATOR go through objective.energies);
                    the COLUMN ORDER is a random permutation independent of the model's order ("cols"), with columns the
                    model does not know ("extra"); per-sample entry points get a one-row matrix, a 1-d row or a dict
                    ("single"); every sample dtype that can hold the values; zero rows ("rows": []);
@@ -152,6 +155,9 @@ def gen_case(rng, tier):
         c["drop"] = True
         cols.remove(rng.choice(cols))                    # a model label the samples do not have
     c["cols"] = cols
+    if not unl and c["form"] in ('dict', 'list', 'array') and rng.random() < 0.45:
+        c["form"] = 'dicts_own'      # every sample in its own label order (dicts, some as (row, labels))
+        c["permseed"] = rng.randrange(1 << 30)
     c["single"] = rng.choice(['same', 'same', '1d', 'dict'])
     return c
 
@@ -233,9 +239,35 @@ def xexpr_term(target, cqm):
     return f"(mkX {clist([cnat(i) for i in idx])} (qm_of_raw {rvts} {rlin} {rquad} {cq(F(target.offset))}))"
 
 
-def make_samples_like(form, mat, cols, dtype):
-    """the samples-like object of the given form for the matrix `mat` (rows x cols)"""
+def own_order(cols, seed, k):
+    """label order of sample k in the forms where every sample has its own: the first keeps `cols`, later ones are
+    rotated (a non-self-inverse permutation for >= 3 labels), shuffled or left alone"""
+    if k == 0 or seed is None or len(cols) < 2:
+        return list(cols)
+    import random
+    r = random.Random(seed + k)
+    mode = r.choice(['rot', 'rot', 'shuffle', 'same'])
+    if mode == 'rot':
+        j = r.randint(1, len(cols) - 1)
+        return list(cols[j:]) + list(cols[:j])
+    out = list(cols)
+    if mode == 'shuffle':
+        r.shuffle(out)
+    return out
+
+
+def make_samples_like(form, mat, cols, dtype, rls=None):
+    """the samples-like object of the given form for the matrix `mat` (rows x cols); rls = per-row label orders"""
     n = len(cols)
+    if form in ('dicts_own', 'rows_own'):
+        cpos = {repr(v): i for i, v in enumerate(cols)}
+        out = []
+        for r, ls in zip(mat, rls):
+            vals = [r[cpos[repr(v)]] for v in ls]
+            # a list with at least one dict may mix dicts and (row, labels) samples; the first stays a dict
+            as_dict = form == 'dicts_own' and (len(out) == 0 or (len(out) + len(ls) + sum(vals)) % 3 != 0)
+            out.append(dict(zip(ls, vals)) if as_dict else (vals, list(ls)))
+        return out
     if form == 'dict':
         return [dict(zip(cols, r)) for r in mat]
     if form == 'array':
@@ -253,6 +285,9 @@ def make_samples_like(form, mat, cols, dtype):
 
 
 def single_like(form, single, row, cols, dtype):
+    if form in ('dicts_own', 'rows_own'):
+        # row / cols are already in the sample's own order
+        return dict(zip(cols, row)) if form == 'dicts_own' or single == 'dict' else (list(row), list(cols))
     if single == 'dict' and form not in ('unlabelled', 'unlabelled_list'):
         return dict(zip(cols, row))
     if single == '1d':
@@ -310,10 +345,15 @@ def run_case(c):
             raise RuntimeError("generated rows are not representable in the chosen dtype")
     if form in ('unlabelled', 'unlabelled_list') and cols != list(range(len(cols))):
         raise RuntimeError("unlabelled samples need columns 0..n-1")
-    sl = make_samples_like(form, mat, cols, dtype)
+    own = form in ('dicts_own', 'rows_own')
+    rls = [own_order(cols, c.get("permseed"), k) if own else cols for k in range(len(mat))]
+    cpos = {repr(v): i for i, v in enumerate(cols)}
+    omat = [[mat[k][cpos[repr(v)]] for v in rls[k]] for k in range(len(mat))]      # values in each sample's own order
+    sl = make_samples_like(form, mat, cols, dtype, rls)
     xm = (f"(mkXCqm {clist([cnat(T.idx(enc_label(v))) for v in cqm.variables])} {xexpr_term(cqm.objective, cqm)} "
           f"{clist(xcons)})")
-    ls = clist([cnat(T.idx(enc_label(v))) for v in cols])
+    ls = clist([cnat(T.idx(enc_label(v))) for v in (rls[0] if mat else cols)])     # as_samples: the first sample's labels
+    cls_ = clist([cnat(T.idx(enc_label(v))) for v in cols])
     cmat = [clist([cq(x) for x in r]) for r in mat]
     missing = [v for v in mvars if repr(v) not in set(map(repr, cols))]
     feats = {"default_tol": default_tol, "soft": any_soft, "form": form, "single": single,
@@ -321,6 +361,7 @@ def run_case(c):
              "cols_in_model_order": [repr(x) for x in cols] == [repr(x) for x in cqm.variables],
              "range_labels": all(isinstance(v, int) for v in mvars) and sorted(mvars) == list(range(len(mvars))),
              "labels_at_own_index": all(isinstance(v, int) and v == i for i, v in enumerate(cqm.variables)),
+             "own_orders": own and any([repr(x) for x in l] != [repr(x) for x in rls[0]] for l in rls),
              "extra_cols": len(cols) + len(missing) - len(mvars), "dropped": bool(missing), "rows": len(mat)}
     if missing and not mat:
         # zero rows and a missing label: which path from_samples_cqm takes depends on len(samples_like); not compared
@@ -329,7 +370,7 @@ def run_case(c):
         # a model label is missing: ValueError exactly when an evaluated expression needs it
         ps_raised = []
         for k, row in enumerate(mat):
-            s = single_like(form, single, row, cols, dtype)
+            s = single_like(form, single, omat[k], rls[k], dtype)
             outs = []
             for f in (lambda: cqm.violations(s), lambda: list(cqm.iter_constraint_data(s)),
                       lambda: cqm.check_feasible(s, **tk)):
@@ -348,7 +389,7 @@ def run_case(c):
             vec_raised = True
         if vec_raised or any(ps_raised):
             lhs = clist([coq_obs(gen.observe(cqm.constraints[l].lhs), T) for l in labels])
-            coq = (f"(mkRCase {cnat(len(T))} {coq_obs(gen.observe(cqm.objective), T)} {lhs} {xm} {ls} {clist(cmat)} "
+            coq = (f"(mkRCase {cnat(len(T))} {coq_obs(gen.observe(cqm.objective), T)} {lhs} {xm} {cls_} {clist(cmat)} "
                    f"{clist([cbool(b) for b in ps_raised])} {cbool(vec_raised)})")
             feats["raised"] = True
             return {"coq": coq, "check_fn": "check_raise", "py_fail": py_fail, "features": feats, "nontrivial": True}
@@ -363,6 +404,11 @@ def run_case(c):
     if ss.record.is_satisfied.shape != (len(mat), len(labels)) or ss.record.is_satisfied.dtype != np.bool_:
         py_fail = "is_satisfied has the wrong shape / dtype"
     obj_en = [F(x) for x in cqm.objective.energies(sl)] if mat else []
+    if own and mat:
+        # the same samples as an ITERATOR, and as an iterator of (row, labels) samples only
+        if [F(x) for x in cqm.objective.energies(iter(sl))] != obj_en \
+                or [F(x) for x in cqm.objective.energies(iter(make_samples_like('rows_own', mat, cols, dtype, rls)))] != obj_en:
+            py_fail = "objective.energies(iterator of samples) differs from energies(list of the same samples)"
     rows = []
     soft_violated_feasible = False
     for k in range(len(mat)):
@@ -370,7 +416,7 @@ def run_case(c):
         sd = {repr(v): int(rec.sample[i]) for i, v in enumerate(ss.variables)}
         if sd != {repr(v): a for v, a in zip(cols, mat[k])}:
             py_fail = "from_samples_cqm reordered or changed the samples"
-        s = single_like(form, single, mat[k], cols, dtype)
+        s = single_like(form, single, omat[k], rls[k], dtype)
         data = list(cqm.iter_constraint_data(s))
         if [d.label for d in data] != labels:
             py_fail = "iter_constraint_data labels/order"
@@ -397,7 +443,8 @@ def run_case(c):
         if (not cf) and bool(rec.is_feasible):
             soft_violated_feasible = True
         rdata = clist([f"({cq(F(d.lhs_energy))}, {cq(F(d.rhs_energy))}, {cq(F(d.activity))}, {cq(F(d.violation))})" for d in data])
-        rows.append(f"(mkRow {cmat[k]} {rdata} {nq(viol.items(), pos)} {nq(vclip, pos)} {nq(vskip, pos)} {nq(vboth, pos)} "
+        rl = clist([cnat(T.idx(enc_label(v))) for v in rls[k]])
+        rows.append(f"(mkRow {rl} {clist([cq(x) for x in omat[k]])} {rdata} {nq(viol.items(), pos)} {nq(vclip, pos)} {nq(vskip, pos)} {nq(vboth, pos)} "
                     f"{cbool(cf)} {clist([cbool(b) for b in rec.is_satisfied])} {cbool(rec.is_feasible)} {cq(F(rec.energy))})")
     xrows = []
     dom = 1
